@@ -77,12 +77,16 @@ def constructs():
     # flat (not nested) repetition inside one document: n CriticMarkup changes / n occurrences of a defined abbreviation
     c['flat_critic'] = lambda n, form: 'a {++b++} {--c--} {~~d~>e~~} {==f==}{>>g<<}\n' * (n // 4 + 1)
     c['flat_abbrev'] = lambda n, form: '[>AB]: expansion\n\n[?term]: gloss\n\n' + 'AB x term y\n' * (n // 2 + 1)
+    # a chain of reference notes, each one called from inside the previous one (notes are numbered with a short: at most 30000)
+    c['note_chain'] = lambda n, form: 'x[^n0]\n\n' + ''.join('[^n%d]: t[^n%d]\n' % (i, i + 1) for i in range(min(n, 30000))) + '[^n%d]: end\n' % min(n, 30000)
+    c['cite_chain'] = lambda n, form: 'x[#c0]\n\n' + ''.join('[#c%d]: t[#c%d]\n' % (i, i + 1) for i in range(min(n, 30000))) + '[#c%d]: end\n' % min(n, 30000)
+    c['note_chain_in_brackets'] = lambda n, form: 'x[^n0]\n\n' + ''.join('[^n%d]: %st[^n%d]%s\n' % (i, '[' * 200, i + 1, ']' * 200) for i in range(min(n // 100, 3000))) + '[^n%d]: end\n' % min(n // 100, 3000)
     c['table_pipes'] = lambda n, form: '|'.join('a' for _ in range(n)) + '\n' + '|'.join('-' for _ in range(n)) + '\n' + '|'.join('b' for _ in range(n)) + '\n'
     return c
 
 
-VERBATIM_NESTING = {'code_brackets', 'math_brackets', 'math_nested', 'code_block_brackets'}
-SINGLE_FORM = {'flat_critic', 'flat_abbrev', 'sup', 'sub', 'backtick', 'blockquote', 'bq_lines', 'list_indent', 'list_marker', 'enum_marker', 'deflist', 'table_pipes'}
+VERBATIM_NESTING = {'code_brackets', 'math_brackets', 'math_nested', 'code_block_brackets', 'note_chain', 'cite_chain', 'note_chain_in_brackets'}
+SINGLE_FORM = {'note_chain', 'cite_chain', 'note_chain_in_brackets', 'flat_critic', 'flat_abbrev', 'sup', 'sub', 'backtick', 'blockquote', 'bq_lines', 'list_indent', 'list_marker', 'enum_marker', 'deflist', 'table_pipes'}
 
 PATTERNS = {'unopened_emph': 'a_', 'unclosed_emph': '_a', 'unopened_link': 'a]', 'unclosed_link': '[a', 'mismatched': '*a_', 'link_emph': '[ a_',
             'open_brackets': '[', 'close_brackets': ']'}
@@ -153,12 +157,13 @@ def cost_task(args):
 
 def pattern_task(args):
     """Published pattern in ONE paragraph: n units for n on a doubling ladder; one cost measurement (k=1) per n."""
-    name, unit, sep, fmt, ext, ns, budget, work = args
+    name, unit, sep, fmt, ext, ns, budget, work = args[:8]
+    prefix = args[8] if len(args) > 8 else ''
     rungs = []
     t_end = time.time() + budget
     for n in ns:
         p = os.path.join(work, 'pat-%s-%s-%s-%d-%d.text' % (name, 'l' if sep == '\n' else 's', fmt, ext, n))
-        open(p, 'w').write(sep.join([unit] * n) + '\n')
+        open(p, 'w').write(prefix + sep.join([unit] * n) + '\n')
         left = t_end - time.time()
         if left <= 0:
             break
@@ -170,9 +175,9 @@ def pattern_task(args):
         os.unlink(p)
         m = re.search(r'k=(\d+) in=(\d+) edges=(\d+) stack=(\d+)', q.stdout.decode())
         if q.returncode != 0 or not m:
-            return dict(path='pattern-%s-%s' % (name, 'lines' if sep == '\n' else 'oneline'), fmt=fmt, ext=ext, rungs=rungs, rc=q.returncode, crashed=n, unit=unit, sep=sep)
+            return dict(path='pattern-%s-%s' % (name, 'lines' if sep == '\n' else 'oneline'), fmt=fmt, ext=ext, rungs=rungs, rc=q.returncode, crashed=n, unit=unit, sep=sep, prefix=prefix)
         rungs.append((n, int(m.group(2)), int(m.group(3)), int(m.group(4))))
-    return dict(path='pattern-%s-%s' % (name, 'lines' if sep == '\n' else 'oneline'), fmt=fmt, ext=ext, rungs=rungs, rc=0, unit=unit, sep=sep)
+    return dict(path='pattern-%s-%s' % (name, 'lines' if sep == '\n' else 'oneline'), fmt=fmt, ext=ext, rungs=rungs, rc=0, unit=unit, sep=sep, prefix=prefix)
 
 
 def replay(path):
@@ -321,6 +326,11 @@ def run(tier):
     ns = [1 << e for e in range(10, 16 if quick else 18)]
     ptasks = [(name, unit, sep, f, e, ns, (40 if quick else 600) * scale, work) for name, unit in PATTERNS.items() for sep in ('\n', ' ')
               for f in fmts for e in (EXT_MMD, EXT_COMPAT)]
+    # the same patterns behind a pair that encloses a stray opener of another kind (the pair matcher discards the stray opener when the
+    # pair closes; its bookkeeping for the large-stack short-circuit must forget it as well)
+    for pname, prefix in (('star_ul', '*x _y* '), ('ul_star', '_x *y_ '), ('bracket_paren', '[ ( ] '), ('quote_bracket', '"x [y" ')):
+        ptasks += [('%s_after_%s' % (name, pname), unit, sep, 'html', EXT_MMD, ns, (40 if quick else 600) * scale, work, prefix)
+                   for name, unit in PATTERNS.items() for sep in ('\n', ' ')]
     with cf.ProcessPoolExecutor(common.NCPU) as ex:
         for r in ex.map(pattern_task, ptasks, chunksize=1):
             ev.evaluations += len(r['rungs'])
@@ -339,7 +349,7 @@ def run(tier):
             if v:
                 rp = os.path.join(work, 'cost-%s-%s-%d.txt' % (r['path'], r['fmt'], r['ext']))
                 n = r.get('crashed') or r['rungs'][-1][0]
-                open(rp, 'wb').write(('cost fmt=%s ext=%d\n' % (r['fmt'], r['ext'])).encode() + (r['sep'].join([r['unit']] * n) + '\n').encode())
+                open(rp, 'wb').write(('cost fmt=%s ext=%d\n' % (r['fmt'], r['ext'])).encode() + (r.get('prefix', '') + r['sep'].join([r['unit']] * n) + '\n').encode())
                 failures.append(('%s:pattern:%s' % (v[0], r['path']), rp, '%s %s ext=%#x: %s' % (r['path'], r['fmt'], r['ext'], v[1])))
     # committed regressions
     rd = os.path.join(common.SEEDS, PROP)
